@@ -705,10 +705,11 @@ func (sh *SyncHandler) addBlobToCopy(sb blob.SizedRef) bool {
 }
 
 func (sh *SyncHandler) enqueue(sb blob.SizedRef) error {
-	if !sh.addBlobToCopy(sb) {
-		// Dup
-		return nil
-	}
+	// Even if the blob is already pending in memory (a dup), still
+	// write its queue row below: the upload which added it to memory
+	// may not have persisted its row yet (or may fail to), and once
+	// we return our caller is told the blob is safely queued.
+	sh.addBlobToCopy(sb)
 	// TODO: include current time in encoded value, to attempt to
 	// do in-order delivery to remote side later? Possible
 	// friendly optimization later. Might help peer's indexer have
